@@ -21,17 +21,44 @@ static void on_diag(void);
 #endif
 
 enum { K_VOID, K_BOOL, K_CHAR, K_SHORT, K_INT, K_LONG, K_FLOAT, K_DOUBLE, K_SIGNED, K_UNSIGNED, NKW };
-static char *spell[NKW] = {"void", "_Bool", "char", "short", "int", "long", "float", "double", "signed", "unsigned"};
-static int spell_len[NKW] = {4, 5, 4, 5, 3, 4, 5, 6, 6, 8};
+#define SPMAX 9
+static const char spell[NKW][SPMAX] = {"void", "_Bool", "char", "short", "int", "long", "float", "double", "signed",
+                                       "unsigned"};
+static const int spell_len[NKW] = {4, 5, 4, 5, 3, 4, 5, 6, 6, 8};
 
 struct IN_t { uint8_t n; uint8_t kw[NT]; } IN;
 struct IN_t nondet_IN(void);
 
 bool stub_is_typename(Token *tok) {
-  for (int k = 0; k < NKW; k++)
-    if (tok->len == spell_len[k] && !strncmp(tok->loc, spell[k], spell_len[k]))
-      return true;
+  for (int k = 0; k < NKW; k++) {
+    if (tok->len != spell_len[k]) continue;
+    bool same = true;
+    for (int j = 0; j < SPMAX - 1; j++)
+      if (j < spell_len[k] && tok->loc[j] != spell[k][j]) same = false;
+    if (same) return true;
+  }
   return false;
+}
+
+// find_typedef() looks identifiers up in the scope HashMap; on keyword tokens it returns NULL before
+// any lookup.  Replaced (cbmc only) by a stub that asserts exactly that precondition.
+Type *stub_find_typedef(Token *tok) {
+  VASSERT(tok->kind != TK_IDENT, "find_typedef stub: keyword tokens only");
+  return NULL;
+}
+
+// The branches of declspec() for _Atomic(type), _Alignas, struct, union, enum, typeof and typedef
+// names cannot be taken by keyword-only input.  Their callees are cut (cbmc only) by stubs that
+// ASSERT unreachability, so the cut is checked rather than assumed.
+Type *cut_parse_type(Token **rest, Token *tok) {
+  VASSERT(0, "declspec leaves the arithmetic-specifier path on keyword-only input");
+  __CPROVER_assume(0);
+  return ty_int;
+}
+int64_t cut_const_expr(Token **rest, Token *tok) {
+  VASSERT(0, "declspec evaluates a constant expression on keyword-only input");
+  __CPROVER_assume(0);
+  return 0;
 }
 
 // ---- reference: C11 6.7.2p2 (without _Complex, _Atomic, struct/union/enum/typedef names) + psABI
@@ -72,20 +99,24 @@ void h_declspec(void) {
   HAVOC_IN();
   __CPROVER_assume(IN.n >= 1 && IN.n <= NT);
   int c[NKW] = {0};
-  Token toks[NT + 1];
-  memset(toks, 0, sizeof toks);
-  for (int i = 0; i < NT; i++) {
-    if (i >= IN.n) break;
-    __CPROVER_assume(IN.kw[i] < NKW);
-    c[IN.kw[i]]++;
-    toks[i].kind = TK_KEYWORD;
-    toks[i].loc = spell[IN.kw[i]];
-    toks[i].len = spell_len[IN.kw[i]];
-    toks[i].next = &toks[i + 1];
+  static Token toks[NT + 1];            // static: zero-initialised without memset
+  static char text[NT + 1][SPMAX];      // each token's spelling lives in its own buffer (pooled alphabet)
+  // tokens 0..n-1 are keywords, every later token is ";" (no symbolic-index writes: keeps each
+  // token's kind/len/loc simple for the symbolic executor)
+  for (int i = 0; i <= NT; i++) {
+    toks[i].kind = TK_KEYWORD;          // the kind of ";" is irrelevant to declspec/is_typename
+    toks[i].loc = text[i];
+    toks[i].next = &toks[i < NT ? i + 1 : NT];   // the last ";" links to itself (never followed)
+    if (i < NT && i < IN.n) {
+      __CPROVER_assume(IN.kw[i] < NKW);
+      c[IN.kw[i]]++;
+      for (int j = 0; j < SPMAX; j++) text[i][j] = spell[IN.kw[i]][j];
+      toks[i].len = spell_len[IN.kw[i]];
+    } else {
+      text[i][0] = ';';
+      toks[i].len = 1;
+    }
   }
-  toks[IN.n].kind = TK_PUNCT;
-  toks[IN.n].loc = ";";
-  toks[IN.n].len = 1;
 #if MODE == 1
   __CPROVER_assume(c[K_SIGNED] <= 1 && c[K_UNSIGNED] <= 1);
 #elif MODE == 2
